@@ -133,12 +133,16 @@ def bytesToString (bs : Bytes) : String :=
 
 def strBytes (s : String) : Bytes := s.toUTF8.toList.map (·.toNat)
 
-/-- note: `Display` prints hours first — `{hours}:{minutes}:{seconds}` -/
-def displayInterval (ns : Int) : String :=
+/-- the text of a non-negative interval; `Display` prints hours first — `{hours}:{minutes}:{seconds}` -/
+def displayIntervalAbs (ns : Int) : String :=
   let secs := Int.tdiv ns nsPerSec
   let millis := Int.tdiv ns 1000000
   padLeft 2 (toString (Int.tdiv (Int.tdiv secs 60) 60)) ++ ":" ++ padLeft 2 (toString (Int.tmod (Int.tdiv secs 60) 60)) ++ ":" ++
     padLeft 2 (toString (Int.tmod secs 60)) ++ "." ++ padLeft 3 (toString (millis - secs * 1000))
+
+/-- `Display` of an INTERVAL: a negative interval is the sign followed by the text of its magnitude (/repo bc60604) -/
+def displayInterval (ns : Int) : String :=
+  if ns < 0 then "-" ++ displayIntervalAbs (-ns) else displayIntervalAbs ns
 
 mutual
 def display : Value → String
